@@ -256,3 +256,180 @@ pub async fn ws_conn(addr: SocketAddr, wire: Arc<Vec<Vec<u8>>>, n_expected: usiz
     let (_sink, (frames, end, garbage, waited_out, bytes)) = tokio::join!(writer, reader);
     ConnOut { frames, end, garbage, waited_out, bytes }
 }
+
+// ------------------------------------------------------------------ peers that build up back-pressure (c03_bp.rs)
+
+/// How a WebSocket peer makes the server's outbound path back up.
+#[derive(Clone, Copy, Debug)]
+pub struct BpPeer {
+    /// SO_RCVBUF of the peer's socket (None: system default)
+    pub rcvbuf: Option<u32>,
+    /// the peer reads nothing before it has written the whole pipeline ...
+    pub write_first: bool,
+    /// ... and for this long after that
+    pub hold: Duration,
+    /// bound on the not-reading phase: a peer that never reads while the server's queue and both socket buffers are
+    /// full stalls the server's reader (legitimate back-pressure) and with it the peer's own writes
+    pub grace: Duration,
+    /// pause before each of the first `slow_n` reads
+    pub slow: Duration,
+    pub slow_n: usize,
+}
+
+/// What the peer saw of its own scaffolding.
+#[derive(Clone, Copy, Debug, Default)]
+pub struct BpObs {
+    /// every request had been written (and flushed) before the first read
+    pub wrote_all_before_reading: bool,
+    /// the bound on the not-reading phase expired with requests still unwritten
+    pub grace_expired: bool,
+    pub write_ms: u64,
+}
+
+/// Like `ws_conn`, but the peer writes the WHOLE pipeline before it reads anything (bounded), and/or reads slowly,
+/// optionally with a small receive buffer. Writing and reading are independent futures, every wait is bounded.
+pub async fn ws_conn_bp(addr: SocketAddr, wire: Arc<Vec<Vec<u8>>>, n_expected: usize, sid: u8, wait_keys: Vec<(u8, u64)>, p: BpPeer) -> (ConnOut, BpObs) {
+    let sock = match tokio::net::TcpSocket::new_v4() {
+        Ok(s) => s,
+        Err(e) => return (ConnOut::harness(format!("socket: {e}")), BpObs::default()),
+    };
+    if let Some(n) = p.rcvbuf {
+        let _ = sock.set_recv_buffer_size(n);
+    }
+    let stream = match timeout(CONNECT_T, sock.connect(addr)).await {
+        Ok(Ok(s)) => s,
+        Ok(Err(e)) => return (ConnOut::harness(format!("connect: {e}")), BpObs::default()),
+        Err(_) => return (ConnOut::harness("connect timeout".into()), BpObs::default()),
+    };
+    let _ = stream.set_nodelay(true);
+    let ws = match timeout(CONNECT_T, tokio_tungstenite::client_async(format!("ws://{addr}/ws"), stream)).await {
+        Ok(Ok((ws, _))) => ws,
+        Ok(Err(e)) => return (ConnOut::harness(format!("ws handshake: {e}")), BpObs::default()),
+        Err(_) => return (ConnOut::harness("ws handshake timeout".into()), BpObs::default()),
+    };
+    let (mut sink, mut stream) = ws.split();
+    let (tx, rx) = tokio::sync::oneshot::channel::<()>();
+    let (wd_tx, wd_rx) = tokio::sync::oneshot::channel::<u64>();
+    let writer = async move {
+        let t0 = Instant::now();
+        let mut ok = true;
+        // the peer's own write did not complete within the bound (scaffolding stall, not an observation)
+        let mut stalled = false;
+        for f in wire.iter() {
+            match timeout(WAIT_T, sink.feed(WsMsg::Binary(f.clone()))).await {
+                Ok(Ok(())) => {}
+                Ok(Err(_)) => {
+                    ok = false;
+                    break;
+                }
+                Err(_) => {
+                    ok = false;
+                    stalled = true;
+                    break;
+                }
+            }
+        }
+        if ok {
+            match timeout(WAIT_T, sink.flush()).await {
+                Ok(Ok(())) => {}
+                Ok(Err(_)) => ok = false,
+                Err(_) => {
+                    ok = false;
+                    stalled = true;
+                }
+            }
+        }
+        if ok {
+            let _ = wd_tx.send(t0.elapsed().as_millis() as u64);
+        } else {
+            drop(wd_tx);
+        }
+        let _ = rx.await;
+        let _ = timeout(EOS_T, sink.send(WsMsg::Close(None))).await;
+        (sink, stalled)
+    };
+    let reader = async move {
+        let mut obs = BpObs::default();
+        if p.write_first {
+            tokio::select! {
+                r = wd_rx => {
+                    if let Ok(ms) = r {
+                        obs.wrote_all_before_reading = true;
+                        obs.write_ms = ms;
+                        tokio::time::sleep(p.hold).await;
+                    }
+                }
+                _ = tokio::time::sleep(p.grace) => obs.grace_expired = true,
+            }
+        }
+        let mut frames: Vec<Frame> = vec![];
+        let mut garbage: Option<String> = None;
+        let mut tx = Some(tx);
+        let mut waited_out = false;
+        let mut bytes = 0usize;
+        let mut reads = 0usize;
+        let end;
+        loop {
+            if frames.len() >= n_expected && tx.is_some() {
+                if !wait_events(sid, &wait_keys).await {
+                    waited_out = true;
+                }
+                if let Some(t) = tx.take() {
+                    let _ = t.send(());
+                }
+            }
+            if reads < p.slow_n && !p.slow.is_zero() && tx.is_some() {
+                tokio::time::sleep(p.slow).await;
+            }
+            reads += 1;
+            let wait = if tx.is_some() { WAIT_T } else { EOS_T };
+            match timeout(wait, stream.next()).await {
+                Err(_) => {
+                    if let Some(t) = tx.take() {
+                        waited_out = true;
+                        let _ = t.send(());
+                    } else {
+                        end = End::Timeout;
+                        break;
+                    }
+                }
+                Ok(None) => {
+                    end = End::Eos;
+                    break;
+                }
+                Ok(Some(Ok(WsMsg::Binary(b)))) => {
+                    bytes += b.len();
+                    match oracle::valid_parse(&b, true) {
+                        Some((h, ql, bl)) => frames.push(Frame { header: h, query: b[48..48 + ql].to_vec(), body: b[48 + ql..48 + ql + bl].to_vec(), at: frames.len() }),
+                        None => {
+                            if garbage.is_none() {
+                                garbage = Some(format!("binary message #{} of {} bytes is not exactly one REPE frame", frames.len(), b.len()));
+                            }
+                        }
+                    }
+                }
+                Ok(Some(Ok(WsMsg::Text(t)))) => {
+                    if garbage.is_none() {
+                        garbage = Some(format!("text message of {} bytes", t.len()));
+                    }
+                }
+                Ok(Some(Ok(_))) => {}
+                Ok(Some(Err(e))) => {
+                    use tokio_tungstenite::tungstenite::Error as E;
+                    end = match e {
+                        E::ConnectionClosed | E::AlreadyClosed => End::Eos,
+                        other => End::Unclean(other.to_string()),
+                    };
+                    break;
+                }
+            }
+        }
+        drop(tx);
+        (frames, end, garbage, waited_out, bytes, obs)
+    };
+    let ((_sink, write_stalled), (frames, end, garbage, waited_out, bytes, obs)) = tokio::join!(writer, reader);
+    if write_stalled {
+        return (ConnOut::harness(format!("the peer could not write its pipeline within {WAIT_T:?} although it was reading ({} frames received)", frames.len())), obs);
+    }
+    (ConnOut { frames, end, garbage, waited_out, bytes }, obs)
+}
